@@ -260,20 +260,23 @@ class C10(F.PropCheck):
                 mpc = 5 if not (0 <= margin <= 100) else margin
                 allow = travel + (full * 1000 * max(mpc, 50) // 100 if target in (0, 100) else 0) + 1_100_000 + (1_300_000 + full * 10 if busy else 0)
                 tau = max([x[0][1][0] for x in tl[i0 + 1:] if x[0][0] == 'CB'] or [0])
+                # supla_esp_gpio_rs_add_task returns at once when the requested position equals the current reported one, also
+                # while another task is still pending or running: the earlier task goes on (classified separately)
+                ign = int(before['task_state'] != 0 and rep(before['pos']) == target)
                 t_last = tl[-1][1]; last = tl[-1][3]
                 falls = [tg for (_, _, edges, _) in tl[i0:] for (tg, which, lev) in edges if which in (1, 2) and lev == 0]
                 settled = not last['up_on'] and not last['down_on'] and last['delayed'] == 0
                 if not settled:
                     if t_last - t_task > allow + 3 * tau:
-                        v.append('task to %d %% from raw position %d (travel time %d ms): after %d us the outputs are %d%d (delayed start pending %d), position %d (allowed %d us) [tau=%d full=%d]' %
-                                 (target, raw0, full, t_last - t_task, last['up_on'], last['down_on'], last['delayed'], last['pos'], allow, tau, full))
+                        v.append('task to %d %% from raw position %d (travel time %d ms): after %d us the outputs are %d%d (delayed start pending %d), position %d (allowed %d us) [tau=%d full=%d ignored=%d]' %
+                                 (target, raw0, full, t_last - t_task, last['up_on'], last['down_on'], last['delayed'], last['pos'], allow, tau, full, ign))
                 else:
                     t_end = max(falls) if falls else t_task
                     if t_end - t_task > allow + 3 * tau:
-                        v.append('task to %d %% from raw position %d ended after %d us, allowed %d us [tau=%d full=%d]' % (target, raw0, t_end - t_task, allow, tau, full))
+                        v.append('task to %d %% from raw position %d ended after %d us, allowed %d us [tau=%d full=%d ignored=%d]' % (target, raw0, t_end - t_task, allow, tau, full, ign))
                     if abs(rep(last['pos']) - target) > 1:
-                        v.append('task to %d %% from raw position %d ended at position %d (reported %d): more than one point off [tau=%d full=%d]' %
-                                 (target, raw0, last['pos'], rep(last['pos']), tau, full))
+                        v.append('task to %d %% from raw position %d ended at position %d (reported %d): more than one point off [tau=%d full=%d ignored=%d]' %
+                                 (target, raw0, last['pos'], rep(last['pos']), tau, full, ign))
         return v[:4]
 
     def nontrivial(self, case, io):
@@ -281,7 +284,8 @@ class C10(F.PropCheck):
 
     def finding_key(self, case, what):
         import re
-        m = re.search(r'\[tau=(\d+) full=(\d+)\]', what)
+        m = re.search(r'\[tau=(\d+) full=(\d+) ignored=(\d)\]', what)
+        if m and m.group(3) == '1': return 'retarget-to-current-position-ignored'
         if m and 'more than one point off' in what:
             tau, full = int(m.group(1)), int(m.group(2))
             # one callback interval is worth more than half a point of travel: 10000 * tau / (full * 1000) > 50
